@@ -70,6 +70,26 @@ def sc(x):
     return i
 
 
+def _decode(x):
+    """the float stream may carry numbers that JSON cannot: {"num": "npf"|"npi"|"frac"|"bool", "v": ...}"""
+    if isinstance(x, dict) and "num" in x:
+        import fractions
+
+        import numpy as np
+        k, v = x["num"], x["v"]
+        return {"npf": lambda: np.float64(v), "npi": lambda: np.int64(v), "bool": lambda: bool(v),
+                "frac": lambda: fractions.Fraction(v[0], v[1])}[k]()
+    if isinstance(x, list):
+        return [_decode(y) for y in x]
+    if isinstance(x, dict):
+        return {k: _decode(v) for k, v in x.items()}
+    return x
+
+
+def _noop(*a, **k):
+    pass
+
+
 def _d(x):
     """a time for a message"""
     return x if _MODE["float"] else x / S
@@ -81,7 +101,7 @@ def _tu():
 
 def _obs_int(x):
     """observations are lists of ints also in the float stream (they are only counted there, never compared)"""
-    return x if isinstance(x, int) else int(round(x * 1000000))
+    return int(x) if isinstance(x, (int, bool)) else int(round(x * 1000000))
 
 
 # ============================================================== implementation side
@@ -102,10 +122,23 @@ class _Env:
         self.prio = {"L": Priority.LOW, "D": Priority.DEFAULT, "H": Priority.HIGH}
 
         class Holder:
+            """an object whose truth value is False and whose len() is 0: code that tests `if fn:` / `if model:` instead of
+            `is not None` would drop its events"""
+
             def __init__(self, h):
                 self.h = h
 
-            def fire(self, tag, body):
+            def __bool__(self):
+                return False
+
+            def __len__(self):
+                return 0
+
+            def fire(self, tag, body, extra=None):
+                env.log.append([0, tag, sc(env.sim.time)])
+                env.run_acts(body)
+
+            def __call__(self, tag, body, extra=None):      # holders of kind 3 are themselves the callable
                 env.log.append([0, tag, sc(env.sim.time)])
                 env.run_acts(body)
 
@@ -113,12 +146,15 @@ class _Env:
             def __init__(self):
                 super().__init__(seed=1)
 
+            def __bool__(self):
+                return False
+
             def step(self):
                 env.log.append([3, self.steps, sc(env.sim.time)])
                 env.run_acts(env.script.get(self.steps, []))
 
         def make_fn():
-            def fire(tag, body):
+            def fire(tag, body, extra=None):
                 env.log.append([0, tag, sc(env.sim.time)])
                 env.run_acts(body)
             return fire
@@ -127,6 +163,12 @@ class _Env:
         self.make_fn = make_fn
         self.Model = M
         self.sim = ABMSimulator() if self.abm else DEVSimulator()
+        # a second simulator in the same process that keeps consuming event ids (SimulationEvent._ids is class-level state)
+        self.decoy = DEVSimulator()
+        # one keyword dict object shared by ALL events, and the argument lists handed in: caller-owned, must never be mutated
+        self.shared_kw = {"extra": 7}
+        self.args_ref = []
+        self.ncall = 0
         self.model = M()
         self.is_setup = bool(case.get("setup", True))
         if self.is_setup:
@@ -154,22 +196,31 @@ class _Env:
         if kind == "tick" and not self.abm:
             return R_SKIP, 0
         if h not in self.holders:
-            # even holders: an object whose bound method is the callable (WeakMethod); odd holders: a plain
-            # function object (weakref.ref) - both kinds of weak reference of SimulationEvent.__init__
-            self.holders[h] = self.Holder(h) if h % 2 == 0 else self.make_fn()
+            # four kinds of callables, all weakly referenced by SimulationEvent: h % 4 == 0 a bound method of a (falsy) object
+            # (WeakMethod), 1 a plain function, 2 a functools.partial object, 3 a (falsy) instance with __call__ (weakref.ref)
+            import functools
+
+            self.holders[h] = [self.Holder(h), self.make_fn(), functools.partial(self.make_fn()), self.Holder(h)][h % 4] \
+                if h >= 0 else self.make_fn()
         holder = self.holders[h]
-        fn = holder.fire if h % 2 == 0 else holder
+        fn = holder.fire if h % 4 == 0 else holder
         del holder
-        kw = {"priority": self.prio[prio], "function_args": [tag, body]}
+        args = [tag, body]
+        self.args_ref.append((args, tag))
+        kw = {"priority": self.prio[prio], "function_args": args, "function_kwargs": self.shared_kw}
+        self.ncall += 1
+        spell = self.ncall % 2      # positional / keyword spelling of the same call
         try:
             if kind == "now":
-                ev = self.sim.schedule_event_now(fn, **kw)
+                ev = self.sim.schedule_event_now(fn, **kw) if spell else self.sim.schedule_event_now(function=fn, **kw)
             elif kind == "rel":
-                ev = self.sim.schedule_event_relative(fn, tv(t, fl), **kw)
+                ev = self.sim.schedule_event_relative(fn, tv(t, fl), **kw) if spell else \
+                    self.sim.schedule_event_relative(function=fn, time_delta=tv(t, fl), **kw)
             elif kind == "abs":
-                ev = self.sim.schedule_event_absolute(fn, tv(t, fl), **kw)
+                ev = self.sim.schedule_event_absolute(fn, tv(t, fl), **kw) if spell else \
+                    self.sim.schedule_event_absolute(function=fn, time=tv(t, fl), **kw)
             else:
-                ev = self.sim.schedule_event_next_tick(fn, **kw)
+                ev = self.sim.schedule_event_next_tick(fn, **kw) if spell else self.sim.schedule_event_next_tick(function=fn, **kw)
         except ValueError:
             # which of the two rejections it was is read off the call, never off the message text (rewording a message is
             # harmless): a time before the clock is "past", anything else "unit"
@@ -181,7 +232,11 @@ class _Env:
 
     def do_cancel(self, tag):
         for ev in self.by_tag.get(tag, []):
-            self.sim.cancel_event(ev)
+            self.ncall += 1
+            if self.ncall % 2:
+                self.sim.cancel_event(ev)
+            else:
+                self.sim.cancel_event(event=ev)
 
     def do_drop(self, h):
         self.dropped.add(h)
@@ -216,6 +271,9 @@ class _Env:
         self.log = []
         self.atom = []
         k = op[0]
+        self.decoy.schedule_event_absolute(_noop, 1.0)
+        self.ncall += 1
+        spell = self.ncall % 2
         info = {"before": self.snapshot()}
         if k == "sched":
             rc, t = self.do_sched(*op[1:])
@@ -232,9 +290,9 @@ class _Env:
         elif k in ("until", "for", "next"):
             try:
                 if k == "until":
-                    self.sim.run_until(tv(op[1], op[2]))
+                    self.sim.run_until(tv(op[1], op[2])) if spell else self.sim.run_until(end_time=tv(op[1], op[2]))
                 elif k == "for":
-                    self.sim.run_for(tv(op[1], op[2]))
+                    self.sim.run_for(tv(op[1], op[2])) if spell else self.sim.run_for(time_delta=tv(op[1], op[2]))
                 else:
                     self.sim.run_next_event()
                 ob = [0] + self.view(self.log)
@@ -250,7 +308,7 @@ class _Env:
                     ob = [-1, 99]
         elif k == "peek":
             try:
-                pk = self.sim.event_list.peak_ahead(op[1])
+                pk = self.sim.event_list.peak_ahead(op[1]) if spell else self.sim.event_list.peak_ahead(n=op[1])
                 items = [[self.tag_of(e), sc(e.time), int(e.priority)] for e in pk]
                 info["peek"] = items
                 info["peek_cancelled"] = [bool(e.CANCELED) for e in pk]
@@ -266,7 +324,7 @@ class _Env:
             new_model = self.Model()
             info["n_events_before"] = len(self.sim.event_list._events)
             try:
-                self.sim.setup(new_model)
+                self.sim.setup(new_model) if spell else self.sim.setup(model=new_model)
                 self.model = new_model
                 self.is_setup = True
                 info["setup"] = 0
@@ -280,6 +338,7 @@ class _Env:
             raise ValueError(k)
         if HEAP_TIE:
             ob = ob + [-7] + [-8 if e.CANCELED else self.tag_of(e) for e in self.sim.event_list._events]
+        info["caller_args_ok"] = self.shared_kw == {"extra": 7} and all(len(a) == 2 and a[0] == t for a, t in self.args_ref)
         info["log"] = [list(i) for i in self.log]
         info["atom"] = list(self.atom)
         info["after"] = self.snapshot()
@@ -406,6 +465,9 @@ def oracle(case, recs):
         k = op[0]
         before, after = info["before"], info["after"]
         if fails:
+            break
+        if not info.get("caller_args_ok", True):
+            fail(f"C14/{cls}/schedule/caller-arguments-mutated", i, f"after {op}: the function_args list / function_kwargs dict handed to schedule_event_* was modified by the simulator")
             break
         if "exc" in info or (ob[:2] == [-1, 99]):
             fail(f"C14/{cls}/{k}/unexpected-exception", i, f"{op} raised {info.get('exc')}")
@@ -688,7 +750,7 @@ def chunk_oracle(case, recs):
             if abm and T % S:
                 ok = False
         if ok:
-            merged.append(["until", T, False if T % S == 0 and abm else True])
+            merged.append(["until", T, False if (not _MODE["float"] and T % S == 0) else True])   # an int horizon stays an int (exact above 2^53)
             groups.append(list(range(i, m + 1)))
             for x in range(m + 1, j):
                 merged.append(ops[x])
@@ -716,6 +778,8 @@ def chunk_oracle(case, recs):
 
 def run_impl(case):
     _MODE["float"] = bool(case.get("float"))
+    if _MODE["float"]:
+        case = _decode(case)
     try:
         recs = simulate(case, case["ops"])
         fails = oracle(case, recs)
@@ -805,7 +869,7 @@ class Gen:
         self.abm = cls == "ABM"
         self.tag = 0
         self.tags = []
-        self.nh = rng.randint(1, 3)
+        self.nh = rng.randint(1, 4)       # holders 0..3: the four kinds of callables of the driver
         self.clk = 0
         self.tmax = 0
 
